@@ -1,0 +1,223 @@
+//! Verification seams. Only compiled with `--cfg geodesy_verif`; never part of a
+//! normal build. Two seams live here:
+//!
+//! - [`Mutex`]: a thin wrapper over `std::sync::Mutex` which reports every
+//!   acquire/contend/release to a harness installed callback, so that a
+//!   deterministic scheduler can own the interleaving of the threads that
+//!   share the process wide grid cache of `Plain`.
+//! - [`wrap_reader`]: lets a harness dictate the read boundaries and read
+//!   faults seen by the `kp` program (via the `GEODESY_VERIF_KP_IO` env var).
+//!
+//! Without an installed callback / without the env var, both are transparent.
+
+use std::io::{BufRead, BufReader, Read};
+use std::ops::{Deref, DerefMut};
+use std::sync::{LockResult, MutexGuard, PoisonError, RwLock, TryLockError};
+
+// ----- L O C K   S E A M ------------------------------------------------------------
+
+/// Event codes handed to the lock hook
+pub const LOCK_BEFORE_ACQUIRE: u8 = 0;
+pub const LOCK_CONTENDED: u8 = 1;
+pub const LOCK_ACQUIRED: u8 = 2;
+pub const LOCK_RELEASED: u8 = 3;
+
+pub type LockHook = fn(u8);
+static LOCK_HOOK: RwLock<Option<LockHook>> = RwLock::new(None);
+
+/// Install (or, with `None`, remove) the process wide lock hook
+pub fn set_lock_hook(hook: Option<LockHook>) {
+    let mut guard = LOCK_HOOK.write().unwrap_or_else(|e| e.into_inner());
+    *guard = hook;
+}
+
+fn lock_hook() -> Option<LockHook> {
+    *LOCK_HOOK.read().unwrap_or_else(|e| e.into_inner())
+}
+
+fn report(event: u8) {
+    if let Some(hook) = lock_hook() {
+        hook(event);
+    }
+}
+
+#[derive(Debug, Default)]
+pub struct Mutex<T>(std::sync::Mutex<T>);
+
+pub struct Guard<'a, T>(Option<MutexGuard<'a, T>>);
+
+impl<T> Mutex<T> {
+    pub const fn new(value: T) -> Self {
+        Mutex(std::sync::Mutex::new(value))
+    }
+
+    pub fn lock(&self) -> LockResult<Guard<'_, T>> {
+        report(LOCK_BEFORE_ACQUIRE);
+        loop {
+            match self.0.try_lock() {
+                Ok(guard) => {
+                    report(LOCK_ACQUIRED);
+                    return Ok(Guard(Some(guard)));
+                }
+                Err(TryLockError::Poisoned(p)) => {
+                    return Err(PoisonError::new(Guard(Some(p.into_inner()))));
+                }
+                Err(TryLockError::WouldBlock) => {
+                    if lock_hook().is_none() {
+                        // Nobody is scheduling us: fall back to a blocking lock
+                        return match self.0.lock() {
+                            Ok(guard) => Ok(Guard(Some(guard))),
+                            Err(p) => Err(PoisonError::new(Guard(Some(p.into_inner())))),
+                        };
+                    }
+                    report(LOCK_CONTENDED);
+                }
+            }
+        }
+    }
+
+    pub fn is_poisoned(&self) -> bool {
+        self.0.is_poisoned()
+    }
+
+    pub fn clear_poison(&self) {
+        self.0.clear_poison()
+    }
+}
+
+impl<T> Deref for Guard<'_, T> {
+    type Target = T;
+    fn deref(&self) -> &T {
+        self.0.as_ref().unwrap()
+    }
+}
+
+impl<T> DerefMut for Guard<'_, T> {
+    fn deref_mut(&mut self) -> &mut T {
+        self.0.as_mut().unwrap()
+    }
+}
+
+impl<T> Drop for Guard<'_, T> {
+    fn drop(&mut self) {
+        // Release first, report afterwards
+        drop(self.0.take());
+        if !std::thread::panicking() {
+            report(LOCK_RELEASED);
+        }
+    }
+}
+
+// ----- R E A D E R   S E A M --------------------------------------------------------
+
+static STREAMS_OPENED: std::sync::Mutex<usize> = std::sync::Mutex::new(0);
+
+/// One scripted step of a faulty reader
+#[derive(Debug, Clone, Copy, PartialEq, Eq)]
+enum Step {
+    /// Deliver at most this many bytes in the next `read`
+    Short(usize),
+    /// Return `ErrorKind::Interrupted` from the next `read`
+    Interrupted,
+}
+
+struct ScriptedReader {
+    inner: Box<dyn BufRead>,
+    steps: Vec<Step>,
+    cursor: usize,
+    delivered: u64,
+    eio_at: Option<u64>,
+    eof_at: Option<u64>,
+}
+
+impl Read for ScriptedReader {
+    fn read(&mut self, buf: &mut [u8]) -> std::io::Result<usize> {
+        if buf.is_empty() {
+            return Ok(0);
+        }
+        let mut limit = buf.len();
+        if !self.steps.is_empty() {
+            let step = self.steps[self.cursor % self.steps.len()];
+            self.cursor += 1;
+            match step {
+                Step::Interrupted => {
+                    return Err(std::io::Error::new(
+                        std::io::ErrorKind::Interrupted,
+                        "simulated EINTR",
+                    ))
+                }
+                Step::Short(n) => limit = limit.min(n.max(1)),
+            }
+        }
+        for fault_at in [self.eio_at, self.eof_at].into_iter().flatten() {
+            if fault_at > self.delivered {
+                limit = limit.min((fault_at - self.delivered) as usize);
+            }
+        }
+        if self.eio_at.is_some_and(|at| at <= self.delivered) {
+            return Err(std::io::Error::other("simulated EIO"));
+        }
+        if self.eof_at.is_some_and(|at| at <= self.delivered) {
+            return Ok(0);
+        }
+        let n = self.inner.read(&mut buf[..limit])?;
+        self.delivered += n as u64;
+        Ok(n)
+    }
+}
+
+/// Wrap the `index`th input stream of `kp` according to `GEODESY_VERIF_KP_IO`.
+///
+/// The variable holds one specification per input stream, separated by `|`.
+/// Each specification is a `;`-separated list of `cap=<n>` (buffer capacity),
+/// `steps=<a>,<b>,i,...` (cyclic list of maximum read sizes, `i` meaning one
+/// `Interrupted` error), `eio=<offset>` (hard error once `offset` bytes have
+/// been delivered), `eof=<offset>` (premature end of file at `offset`).
+/// An empty specification leaves the stream untouched.
+pub fn wrap_reader(reader: Box<dyn BufRead>, _name: &str) -> Box<dyn BufRead> {
+    let Ok(spec) = std::env::var("GEODESY_VERIF_KP_IO") else {
+        return reader;
+    };
+    let index = {
+        let mut opened = STREAMS_OPENED.lock().unwrap_or_else(|e| e.into_inner());
+        *opened += 1;
+        *opened - 1
+    };
+    let Some(spec) = spec.split('|').nth(index) else {
+        return reader;
+    };
+    if spec.trim().is_empty() {
+        return reader;
+    }
+
+    let mut capacity = 8192_usize;
+    let mut scripted = ScriptedReader {
+        inner: reader,
+        steps: Vec::new(),
+        cursor: 0,
+        delivered: 0,
+        eio_at: None,
+        eof_at: None,
+    };
+    for item in spec.split(';') {
+        let Some((key, value)) = item.trim().split_once('=') else {
+            continue;
+        };
+        match key {
+            "cap" => capacity = value.parse().unwrap_or(capacity).max(1),
+            "eio" => scripted.eio_at = value.parse().ok(),
+            "eof" => scripted.eof_at = value.parse().ok(),
+            "steps" => {
+                for step in value.split(',') {
+                    if step == "i" {
+                        scripted.steps.push(Step::Interrupted);
+                    } else if let Ok(n) = step.parse::<usize>() {
+                        scripted.steps.push(Step::Short(n));
+                    }
+                }
+            }
+            _ => (),
+        }
+    }
+    Box::new(BufReader::with_capacity(capacity, scripted))
+}
